@@ -160,6 +160,13 @@ func checkC09(c *Check) {
 			return u.Sub[1]
 		case u.K == "range" && u.Name == "value":
 			return &Org{K: "range", Name: "key", Sub: u.Sub}
+		case u.K == "call" && u.R != nil && u.Idx >= 0:
+			// the object is a result of a finder function: the key is the
+			// other result that is assigned, at the same places, the key of
+			// the same map entry
+			if j := finderKeyResult(p, u); j >= 0 {
+				return &Org{K: "call", V: u.V, Name: u.Name, Idx: j, R: u.R}
+			}
 		}
 		return nil
 	}
@@ -546,4 +553,74 @@ func transientCarrierD(p *Prog, nt *types.Named, depth int) (bool, string) {
 		return false, bad
 	}
 	return true, "never stored in a field, variable, map, channel or interface"
+}
+
+
+// finderKeyResult: u is result #i of a repository function that stores, in a
+// scan callback, the visited entry's value into the variable returned as #i
+// and, in the same block, the visited entry's key into the variable returned
+// as #j: returns j (or -1).
+func finderKeyResult(p *Prog, u *Org) int {
+	call, ok := u.V.(*ssa.Call)
+	if !ok {
+		return -1
+	}
+	sc := staticCallee(call.Common())
+	if sc == nil || !InRepo(sc) || sc.Blocks == nil {
+		return -1
+	}
+	cells := map[int]*ssa.Alloc{}
+	allInstrs(sc, func(in ssa.Instruction) {
+		ret, isRet := in.(*ssa.Return)
+		if !isRet || ret.Block() == sc.Recover {
+			return
+		}
+		for i, rv := range ret.Results {
+			if ld, isLd := rv.(*ssa.UnOp); isLd {
+				if a, isA := ld.X.(*ssa.Alloc); isA {
+					cells[i] = a
+				}
+			}
+		}
+	})
+	uc := cells[u.Idx]
+	if uc == nil {
+		return -1
+	}
+	r := NewResolver(p)
+	for j, kc := range cells {
+		if j == u.Idx {
+			continue
+		}
+		okAll, n := true, 0
+		for _, st := range r.cellStores(uc) {
+			if isNilConst(st.Val) {
+				continue
+			}
+			n++
+			vprm, isP := strip(st.Val).(*ssa.Parameter)
+			if !isP {
+				okAll = false
+				continue
+			}
+			// a store to kc in the same block whose value is the key parameter of the same callback
+			found := false
+			for _, ks := range r.cellStores(kc) {
+				if ks.Block() != st.Block() {
+					continue
+				}
+				kprm, isK := strip(ks.Val).(*ssa.Parameter)
+				if isK && kprm.Parent() == vprm.Parent() && len(vprm.Parent().Params) == 2 && vprm.Parent().Params[0] == kprm && vprm.Parent().Params[1] == vprm {
+					found = true
+				}
+			}
+			if !found {
+				okAll = false
+			}
+		}
+		if okAll && n > 0 {
+			return j
+		}
+	}
+	return -1
 }
